@@ -340,7 +340,7 @@ func (g *gen) stepV2() {
 	w, r := g.w, g.r
 	v := w.v2
 	if len(v.revs) == 0 {
-		w.dispatch(mkOp("form4", "allow", cs(sc.Mul64(uint64(50+r.Intn(200)))), "col", cs(sc.Mul64(uint64(100+r.Intn(300)))), "dur", fmt.Sprint(40+r.Intn(40))))
+		g.form4()
 		return
 	}
 	// pick a contract that was not renewed
@@ -350,13 +350,14 @@ func (g *gen) stepV2() {
 	}
 	funded := -1
 	for j := 0; j < 3; j++ {
-		if b, _ := w.node.Store.RHP4AccountBalance(accountOf(j)); !b.IsZero() {
+		// an account that can pay for a sector write (a few 10^9 H at the smallest prices)
+		if b, _ := w.node.Store.RHP4AccountBalance(accountOf(j)); b.Cmp(sc.Div64(1000)) > 0 || (funded < 0 && r.Chance(1, 4) && !b.IsZero()) {
 			funded = j
 		}
 	}
 	switch x := r.Intn(100); {
 	case x < 5 && len(v.revs) < 4:
-		w.dispatch(mkOp("form4", "allow", cs(sc.Mul64(uint64(50+r.Intn(200)))), "col", cs(sc.Mul64(uint64(100+r.Intn(300)))), "dur", fmt.Sprint(40+r.Intn(40))))
+		g.form4()
 	case x < 25:
 		var deps []string
 		for i, k := 0, 1+r.Intn(3); i < k; i++ {
@@ -380,14 +381,40 @@ func (g *gen) stepV2() {
 		w.dispatch(mkOp("free4", "c", fmt.Sprint(c), "idx", fmt.Sprintf("[%d]", r.Intn(n))))
 	case x < 86:
 		n := int(v.revs[c].Revision.Filesize / sectorSize)
-		w.dispatch(mkOp("roots4", "c", fmt.Sprint(c), "off", "0", "n", fmt.Sprint(r.Intn(n+1))))
+		if n == 0 {
+			return
+		}
+		w.dispatch(mkOp("roots4", "c", fmt.Sprint(c), "off", "0", "n", fmt.Sprint(1+r.Intn(n))))
 	case x < 92 && len(v.revs) < 5:
-		w.dispatch(mkOp("renew4", "c", fmt.Sprint(c), "allow", cs(sc.Mul64(uint64(20+r.Intn(200)))), "col", cs(sc.Mul64(uint64(50+r.Intn(300)))), "ext", fmt.Sprint(5+r.Intn(20))))
+		col := uint64(50 + r.Intn(300))
+		// the host demands an allowance in proportion to the collateral (proto4.MinRenterAllowance);
+		// one in eight requests stays below it and must be refused
+		allow := col*3 + uint64(r.Intn(200))
+		if r.Chance(1, 8) {
+			allow = col / 4
+		}
+		w.dispatch(mkOp("renew4", "c", fmt.Sprint(c), "allow", cs(sc.Mul64(allow)), "col", cs(sc.Mul64(col)), "ext", fmt.Sprint(5+r.Intn(20))))
 	case x < 97 && len(v.revs) < 5:
-		w.dispatch(mkOp("refresh4", "c", fmt.Sprint(c), "allow", cs(sc.Mul64(uint64(20+r.Intn(200)))), "col", cs(sc.Mul64(uint64(50+r.Intn(300))))))
+		col := uint64(50 + r.Intn(300))
+		tc := v.revs[c].Revision.TotalCollateral.Div(sc).Big().Uint64()
+		allow := (tc+col)*3 + uint64(r.Intn(200))
+		if r.Chance(1, 8) {
+			allow = col / 4
+		}
+		w.dispatch(mkOp("refresh4", "c", fmt.Sprint(c), "allow", cs(sc.Mul64(allow)), "col", cs(sc.Mul64(col))))
 	default:
 		w.dispatch(mkOp("mine4", "n", "1"))
 	}
+}
+
+func (g *gen) form4() {
+	r := g.r
+	col := uint64(100 + r.Intn(300))
+	allow := col*3 + uint64(r.Intn(200))
+	if r.Chance(1, 10) {
+		allow = col / 4 // below proto4.MinRenterAllowance: must be refused
+	}
+	g.w.dispatch(mkOp("form4", "allow", cs(sc.Mul64(allow)), "col", cs(sc.Mul64(col)), "dur", fmt.Sprint(40+r.Intn(40))))
 }
 
 func genHistory(t *testing.T, tr *vhlib.Trace, r *vhlib.Rand, n int, v2 bool) {
